@@ -1,13 +1,108 @@
 import TapkeeVerif.Gen.OmpRegions
 import TapkeeVerif.Proofs.OmpTactic
+import TapkeeVerif.Proofs.OmpRegion
+import Mathlib.Data.Set.Basic
+import Mathlib.Algebra.BigOperators.Group.List.Basic
 /-!
 Property C15 — OpenMP regions are race-free; results do not depend on the thread count.
 
-Per-region statements are about `Gen/OmpRegions.lean`, the access table that `tools/translate_omp.py` regenerates from
-the `#pragma omp` regions of the working tree on every run: editing a region's body re-states them.
+* generic, once (`Model/Omp.lean`): a race-free parallel loop ends, under EVERY schedule (= every interleaving of
+  the per-iteration effect sequences; a `critical` section is one atomic step), in the memory of the single-threaded
+  loop, and the container appended to under `critical` holds a permutation of the sequential appends;
+  a triplet list determines the assembled sparse matrix up to permutation (exactly, over any commutative monoid —
+  in `double` this is the re-association of floating-point sums the property allows);
+* per region, over `Gen/OmpRegions.lean` — the access table that `tools/translate_omp.py` regenerates from the
+  `#pragma omp` regions of the working tree on every run, so editing a region's body re-states these theorems:
+  no two different iterations touch the same shared location, one of them writing, outside `critical`.
+
+Partial by nature (named in the evidence): the theorems speak about the access sets extracted from the source; that
+the compiled program performs exactly those accesses is reached only by the differential runs and ThreadSanitizer.
 -/
 namespace TapkeeVerif.Omp
 open TapkeeVerif.Gen.OmpRegions
+
+/-! ### generic theorems -/
+
+variable {V E : Type}
+
+/-- **Schedule independence (interaction-tree form).**  `p.RaceFree` is `∀ i ≠ j, W i ∩ (W j ∪ R j) = ∅` with
+    `W`, `R` the locations an iteration may write / read on any control path. -/
+theorem race_free_deterministic_prog (p : ParLoop V E) (m0 : Loc → V) (h : p.RaceFree) :
+    ∀ σ : List (Fin p.n), p.Complete m0 σ →
+      (p.runSched m0 σ).st.mem = (p.sequential m0).mem ∧
+      ((p.runSched m0 σ).st.log.map Prod.snd).Perm ((p.sequential m0).log.map Prod.snd) := fun σ hσ =>
+  let ⟨hm, hl⟩ := race_free_deterministic' p m0 h σ hσ
+  ⟨hm, hl.map _⟩
+
+/-- **Schedule independence** for a loop given as `(n, body : Fin n → List Eff)`,
+    `Eff = read loc | write loc val | criticalAppend x`:
+    `(∀ i ≠ j, W i ∩ (W j ∪ R j) = ∅) → ∀ σ, finalState (run σ) = finalState sequential`, and the result of the
+    critical appends is a permutation of the sequential result. -/
+theorem race_free_deterministic (n : Nat) (body : Fin n → List (Eff V E)) (m0 : Loc → V)
+    (h : ∀ i j : Fin n, i ≠ j →
+      ({l | effW (body i) l} ∩ ({l | effW (body j) l} ∪ {l | effR (body j) l}) : Set Loc) = ∅) :
+    ∀ σ : List (Fin n), (ParLoop.ofEffs n body).Complete m0 σ →
+      ((ParLoop.ofEffs n body).runSched m0 σ).st.mem = ((ParLoop.ofEffs n body).sequential m0).mem ∧
+      (((ParLoop.ofEffs n body).runSched m0 σ).st.log.map Prod.snd).Perm
+        (((ParLoop.ofEffs n body).sequential m0).log.map Prod.snd) := by
+  refine race_free_deterministic_prog (ParLoop.ofEffs n body) m0 ?_
+  intro i j hij l hw
+  have hl : l ∉ ({l | effW (body i) l} ∩ ({l | effW (body j) l} ∪ {l | effR (body j) l}) : Set Loc) := by
+    rw [h i j hij]; exact fun x => x
+  have hwi : effW (body i) l := ofEffs_writes _ _ _ hw
+  exact ⟨fun hwj => hl ⟨hwi, .inl (ofEffs_writes _ _ _ hwj)⟩, fun hrj => hl ⟨hwi, .inr (ofEffs_reads _ _ _ hrj)⟩⟩
+
+/-- The hypothesis is needed: two iterations writing the same location end differently under two schedules. -/
+example : ∃ (p : ParLoop Nat Unit) (σ₁ σ₂ : List (Fin p.n)), p.Complete (fun _ => 0) σ₁ ∧ p.Complete (fun _ => 0) σ₂ ∧
+    (p.runSched (fun _ => 0) σ₁).st.mem ⟨0, 0, 0⟩ ≠ (p.runSched (fun _ => 0) σ₂).st.mem ⟨0, 0, 0⟩ :=
+  ⟨⟨2, fun i => .write ⟨0, 0, 0⟩ (i.val + 1) .done⟩, [0, 1], [1, 0],
+    fun i => match i with | ⟨0, _⟩ => rfl | ⟨1, _⟩ => rfl,
+    fun i => match i with | ⟨0, _⟩ => rfl | ⟨1, _⟩ => rfl, by decide⟩
+
+/-- … and it is satisfiable: every iteration writes its own row. -/
+example : (ParLoop.ofEffs 3 (fun i => [Eff.read ⟨0, i.val, 0⟩, Eff.write ⟨0, i.val, 1⟩ (fun h => h.sum + 1),
+      Eff.criticalAppend (fun h => h.sum)] : Fin 3 → List (Eff Nat Nat))).RaceFree := by
+  intro i j hij l hw
+  have hwi := ofEffs_writes _ _ _ hw
+  have hne : i.val ≠ j.val := fun e => hij (Fin.ext e)
+  obtain ⟨f, hf⟩ := hwi
+  simp only [List.mem_cons, List.mem_nil_iff, or_false, reduceCtorEq, false_or, Eff.write.injEq] at hf
+  obtain ⟨rfl, -⟩ := hf
+  constructor
+  · intro hwj
+    obtain ⟨g, hg⟩ := ofEffs_writes _ _ _ hwj
+    simp only [List.mem_cons, List.mem_nil_iff, or_false, reduceCtorEq, false_or, Eff.write.injEq, Loc.mk.injEq] at hg
+    exact hne hg.1.2.1
+  · intro hrj
+    have hg := ofEffs_reads _ _ _ hrj
+    simp only [effR, List.mem_cons, List.mem_nil_iff, or_false, reduceCtorEq, or_false, Eff.read.injEq,
+      Loc.mk.injEq] at hg
+    omega
+
+/-- The assembled sparse matrix does not depend on the order of the triplets
+    (`l₁.Perm l₂ → fromTriplets l₁ = fromTriplets l₂` over a commutative monoid). -/
+theorem triplet_sum_perm_invariant {K : Type} [AddCommMonoid K] {l₁ l₂ : List (Nat × Nat × K)}
+    (h : l₁.Perm l₂) : fromTriplets l₁ = fromTriplets l₂ := by
+  funext r c
+  show ((l₁.filter _).map _).sum = ((l₂.filter _).map _).sum
+  exact ((h.filter _).map _).sum_eq
+
+/-- non-vacuity: duplicates are summed, order is irrelevant -/
+example : fromTriplets [(0, 1, (2 : Int)), (1, 1, 5), (0, 1, 3)] 0 1 = 5 ∧
+    fromTriplets [(0, 1, (3 : Int)), (0, 1, 2), (1, 1, 5)] 0 1 = 5 := by decide
+
+/-- **Table ⇒ schedule independence.**  Any loop whose iterations perform only the accesses listed in a race-free
+    region table (`Conforms`: writes inside the table's write footprint of that iteration, reads of written locations
+    inside its read/write footprint; appends under `critical` are the model's `crit` steps) has a schedule-independent
+    final memory and, up to permutation, critical log. -/
+theorem region_deterministic (r : Region) (hr : r.RaceFree) (p : ParLoop V E) (s : Nat → Nat)
+    (hc : p.Conforms r s) (m0 : Loc → V) :
+    ∀ σ : List (Fin p.n), p.Complete m0 σ →
+      (p.runSched m0 σ).st.mem = (p.sequential m0).mem ∧
+      ((p.runSched m0 σ).st.log.map Prod.snd).Perm ((p.sequential m0).log.map Prod.snd) :=
+  race_free_deterministic_prog p m0 (raceFree_of_conforms r hr p s hc)
+
+/-! ### per region, over the generated table -/
 
 /-- the table covers exactly these regions (a new `#pragma omp parallel` in the source needs a theorem here) -/
 theorem regions_covered : regionNames =
@@ -17,29 +112,70 @@ theorem regions_covered : regionNames =
      "hessian_weight_matrix", "linear_weight_matrix", "matrix_from_callback", "tangent_weight_matrix",
      "triangulate"] := by decide
 
+/-- Gaussian kernel matrix: iteration `i` writes `{(i,j),(j,i) | j ≥ i}`; `(i,j) = (j',i')`, `j' ≥ i' ≠ i` is contradictory -/
 theorem disjoint_compute_diffusion_matrix : compute_diffusion_matrix.RaceFree := by
   race_free compute_diffusion_matrix
+/-- landmark distance matrix: the same symmetric pair pattern -/
 theorem disjoint_compute_distance_matrix_1 : compute_distance_matrix_1.RaceFree := by
   race_free compute_distance_matrix_1
+/-- distance matrix: the same symmetric pair pattern -/
 theorem disjoint_compute_distance_matrix_2 : compute_distance_matrix_2.RaceFree := by
   race_free compute_distance_matrix_2
+/-- Isomap geodesics (priority-queue build): iteration `k` writes and reads row `k` only; heap, `s`, `f` are private -/
 theorem disjoint_compute_shortest_distances_matrix_1 : compute_shortest_distances_matrix_1.RaceFree := by
   race_free compute_shortest_distances_matrix_1
+/-- landmark Isomap geodesics (priority-queue build): row `k` only -/
 theorem disjoint_compute_shortest_distances_matrix_2 : compute_shortest_distances_matrix_2.RaceFree := by
   race_free compute_shortest_distances_matrix_2
+/-- the same two regions in the `TAPKEE_USE_FIBONACCI_HEAP` build -/
 theorem disjoint_compute_shortest_distances_matrix_1_fib : compute_shortest_distances_matrix_1_fib.RaceFree := by
   race_free compute_shortest_distances_matrix_1_fib
 theorem disjoint_compute_shortest_distances_matrix_2_fib : compute_shortest_distances_matrix_2_fib.RaceFree := by
   race_free compute_shortest_distances_matrix_2_fib
+/-- weight matrices: the only shared access is the append under `critical` -/
 theorem disjoint_hessian_weight_matrix : hessian_weight_matrix.RaceFree := by
   race_free hessian_weight_matrix
 theorem disjoint_linear_weight_matrix : linear_weight_matrix.RaceFree := by
   race_free linear_weight_matrix
 theorem disjoint_tangent_weight_matrix : tangent_weight_matrix.RaceFree := by
   race_free tangent_weight_matrix
+/-- CLI `matrix_from_callback`: symmetric pair pattern; `j` is `private(j)`, `i` the loop variable -/
 theorem disjoint_matrix_from_callback : matrix_from_callback.RaceFree := by
   race_free matrix_from_callback
+/-- landmark triangulation: iteration `index_iter` writes row `index_iter` only -/
 theorem disjoint_triangulate : triangulate.RaceFree := by
   race_free triangulate
+
+/-- every region of the table is race free -/
+theorem all_regions_race_free : ∀ r ∈ allRegions, r.RaceFree := by
+  intro r hr
+  simp only [allRegions, List.mem_cons, List.mem_nil_iff, or_false] at hr
+  rcases hr with rfl | rfl | rfl | rfl | rfl | rfl | rfl | rfl | rfl | rfl | rfl | rfl
+  · exact disjoint_compute_diffusion_matrix
+  · exact disjoint_compute_distance_matrix_1
+  · exact disjoint_compute_distance_matrix_2
+  · exact disjoint_compute_shortest_distances_matrix_1
+  · exact disjoint_compute_shortest_distances_matrix_2
+  · exact disjoint_compute_shortest_distances_matrix_1_fib
+  · exact disjoint_compute_shortest_distances_matrix_2_fib
+  · exact disjoint_hessian_weight_matrix
+  · exact disjoint_linear_weight_matrix
+  · exact disjoint_matrix_from_callback
+  · exact disjoint_tangent_weight_matrix
+  · exact disjoint_triangulate
+
+/-- distance / geodesic / diffusion / triangulation / CLI regions have no critical section at all: by
+    `region_deterministic` their result is schedule independent bit for bit -/
+theorem exact_regions_no_critical :
+    ∀ r ∈ [compute_diffusion_matrix, compute_distance_matrix_1, compute_distance_matrix_2,
+           compute_shortest_distances_matrix_1, compute_shortest_distances_matrix_2,
+           compute_shortest_distances_matrix_1_fib, compute_shortest_distances_matrix_2_fib,
+           matrix_from_callback, triangulate], r.noCritical = true := by decide
+
+/-- in the three weight-matrix regions everything shared happens under `critical` and is an append to one container:
+    the triplet list is schedule independent up to permutation, hence (`triplet_sum_perm_invariant`) so is the matrix -/
+theorem weight_regions_critical_append_only :
+    ∀ r ∈ [hessian_weight_matrix, linear_weight_matrix, tangent_weight_matrix],
+      r.criticalAppendOnly = true ∧ r.arrays = ["sparse_triplets"] ∧ r.accesses.all (·.critical) = true := by decide
 
 end TapkeeVerif.Omp
